@@ -108,7 +108,7 @@ def random_desc(rng, exact=True, n_nodes=None, n_extra=None, kinds=None, degener
                 kind = rng.choice(kinds)          # fewer ideal voltage sources (loops are singular)
         if kind in SOURCE_KINDS: n_src += 1
         desc.append(dict(n1=a, n2=b, id=idf(kind[:2], i), kind=kind, args=gen_args(rng, kind, exact, positive)))
-    while n_src < min_sources and desc:
+    while n_src < min(min_sources, len(desc)) and desc:
         k = rng.randrange(len(desc))
         if desc[k]['kind'] not in SOURCE_KINDS:
             kind = rng.choice(['vs_lossy', 'cs_ideal', 'cs_lossy'])
